@@ -278,12 +278,14 @@ func dischargeAll(obls []*Obl, cfg *solverCfg) {
 func discharge(o *Obl, cfg *solverCfg, idx int, extra ...string) {
 	var conds []string
 	if o.ctx != nil && o.Expect != "sat" {
-		for i := len(o.ctx.caseConds) - 1; i >= 0 && len(conds) < 1; i-- {
+		napp := 0
+		for i := len(o.ctx.caseConds) - 1; i >= 0 && napp < 2; i-- {
 			cc := o.ctx.caseConds[i]
 			if cc.at <= o.at && (o.hist == nil || o.hist.Bit(int(cc.visit)) == 1) {
 				conds = append(conds, cc.term)
+				napp++
 				// a quantified goal over the elements: is it the element just appended?
-				if o.sk0 != "" {
+				if o.sk0 != "" && napp == 1 && !strings.HasPrefix(o.sk0, "sk_eqseq") {
 					conds = append(conds, fmt.Sprintf("(= %s %s)", o.sk0, cc.lenTerm))
 				}
 			}
